@@ -41,7 +41,7 @@ RULE = (
     "case = (transport udp|tcp|secure, auto_reconnect, DisconnectResponse behaviour ok|0.5 s late|lost, [(event kind, loop iteration)]); event kinds: hb_drop, hb_err (next 4 ConnectionStateRequests unanswered / E_CONNECTION_ID), "
     "srv_disc_own / srv_disc_foreign (server DisconnectRequest), send_fail (a send started at that iteration, its ACKs dropped on UDP), transport_loss (TCP/secure), user_disc (user calls disconnect()), "
     "connect_drop / connect_err / open_refuse (next connect attempts fail); every kind at every iteration 1..N of the fault-free session (N learned by running it) for all 6 variants, "
-    "pairs of events sampled by Hypothesis (biased to adjacent iterations), all pairs of the instantaneous kinds <= 2 iterations apart enumerated (quick; thorough: all kinds, <= 6 apart, x 3 DisconnectResponse behaviours), plus loss x loss/user_disc pairs up to 12 (16) apart with auto_reconnect; triples on the auto-reconnect variants: loss #1 at every iteration, loss #2 in / next to the iteration in which the reconnect started by #1 finishes (learned by running #1 alone), loss #3 1..5 (8) iterations later, optionally user_disc 6 iterations after that, plus Hypothesis-sampled triples; the same session with a main loop registered on the ConnectionManager (register_loop(): reports applied one iteration later): every single event and every pair of instantaneous kinds at most 1 iteration apart, auto_reconnect on; ConnectionManager (with and without register_loop()): op sequences report / burst of 2-4 reports issued back-to-back without yielding to the loop (AA, ABA, ABB, ... and random) / register / unregister / self-unregistering callback vs a dedup model over the reports in issue order, every burst of 1..4 reports from every state enumerated; "
+    "pairs of events sampled by Hypothesis (biased to adjacent iterations), all pairs of the instantaneous kinds <= 2 iterations apart enumerated (quick; thorough: all kinds, <= 6 apart, x 3 DisconnectResponse behaviours), plus loss x loss/user_disc pairs up to 12 (16) apart with auto_reconnect; triples on the auto-reconnect variants: loss #1 at every iteration, loss #2 in / next to the iteration in which the reconnect started by #1 finishes (learned by running #1 alone), loss #3 1..5 (8) iterations later, optionally user_disc 6 iterations after that, plus Hypothesis-sampled triples; the same session with a main loop registered on the ConnectionManager (register_loop(): reports applied one iteration later): every single event and every pair of instantaneous kinds at most 1 iteration apart, auto_reconnect on; interface level (xknx/io/knxip_interface.py): KNXIPInterface.start() as a task for UDP / TCP / secure tunnelling configs (auto_reconnect on/off) against a gateway whose ConnectResponse is prompt / 0.3 s late / missing, stop() at every loop iteration of that run (before, while and after the connect is answered, during the session and the heartbeat); ConnectionManager (with and without register_loop()): op sequences report / burst of 2-4 reports issued back-to-back without yielding to the loop (AA, ABA, ABB, ... and random) / register / unregister / self-unregistering callback vs a dedup model over the reports in issue order, every burst of 1..4 reports from every state enumerated; "
     "non-trivial = the injected event changed the wire log relative to the fault-free session (a fault really happened); distinct by case"
 )
 LEVEL_TEXT = "Each fault kind is injected at every loop iteration of a bounded tunnel session (UDP, TCP, IP Secure; auto-reconnect on/off) in virtual time, pairs of faults are sampled; reconnect concurrency, frames after a user disconnect and the reported connection state are decided from one totally ordered log of wire frames, callbacks and markers."
@@ -52,6 +52,7 @@ ASSUMPTIONS = [
     "the user does not call send_cemi after having called disconnect() (sends already in progress are judged); a disconnect() called while the user's own initial connect() is still pending is a race between two user calls and exempt from clause (b); a TunnellingRequest of a send queued before the call may still be written until disconnect() returns",
     "the server sends DisconnectRequests only over a usable transport (after authentication in a secure session; for its own channel only while it holds one); over TCP they never overtake frames in flight",
     "'connected exactly while established' is judged at handshake time and 300 virtual seconds after the last event (a client cannot notice a silent loss earlier than its heartbeat)",
+    "interface level: after KNXIPInterface.stop() has RETURNED nothing may be written and CONNECTED may neither be reported nor read; what is written between the call and the return of stop() is the disconnect itself and not judged; start()'s own outcome (ok / CommunicationError) is not judged",
     "KNXIPInterfaceThreaded / routing connections are not driven",
 ]
 
@@ -859,13 +860,199 @@ def _cm_shard(ctx, n: int) -> None:
 # ---------------------------------------------------------------------------
 
 
+# ---------------------------------------------------------------------------
+# interface level: KNXIPInterface.start() / stop() (xknx/io/knxip_interface.py)
+
+IFACE_CONNECT = ["ok", ["delay", 0.3], "drop"]
+IFACE_CONFIGS = [(t, ar, c) for t in ("udp", "tcp", "secure") for ar in (True, False) for c in range(len(IFACE_CONNECT))]
+
+
+def iface_execute(case):
+    """start() as a task against a gateway whose ConnectResponse is prompt / 0.3 s late / missing; stop() at a generated
+    loop iteration (None: never). If the start succeeds the session sends once and idles across a heartbeat."""
+    from xknx import XKNX
+    from xknx.exceptions import XKNXException
+    from xknx.io import ConnectionConfig, ConnectionType, SecureConfig
+
+    transport = case["transport"]
+    gw = Gateway(secure=transport == "secure")
+    o = case.get("connect", "ok")
+    gw.connect_plan = [tuple(o) if isinstance(o, list) else o]
+    obs = {"start": None, "stop": None, "session_ticks": None}
+
+    async def scenario(loop):
+        gw.attach(loop)
+        kw = dict(gateway_ip=GW_ADDR[0], gateway_port=GW_ADDR[1], auto_reconnect=case["auto_reconnect"], auto_reconnect_wait=3)
+        if transport == "udp":
+            cfg = ConnectionConfig(connection_type=ConnectionType.TUNNELING, local_ip="10.0.0.2", **kw)
+        elif transport == "tcp":
+            cfg = ConnectionConfig(connection_type=ConnectionType.TUNNELING_TCP, **kw)
+        else:
+            cfg = ConnectionConfig(connection_type=ConnectionType.TUNNELING_TCP_SECURE, secure_config=SecureConfig(user_id=USER_ID, user_password=USER_PW, device_authentication_password=DEV_PW), **kw)
+        xknx = XKNX(connection_config=cfg)
+        cm = xknx.connection_manager
+        iface = xknx.knxip_interface
+        for i in (0, 1):
+            cm.register_connection_state_changed_cb(lambda state, i=i: gw.mark("state", "cb", cb=i, state=state.name))
+        stopped = [False]
+
+        async def start() -> None:
+            gw.mark("user_start_called", "mark")
+            try:
+                await iface.start()
+                obs["start"] = "ok"
+            except asyncio.CancelledError:
+                raise
+            except XKNXException as e:
+                obs["start"] = "failed:" + type(e).__name__
+            except Exception as e:  # noqa: BLE001
+                obs["start"] = "exc:" + exc_site(e)
+            gw.mark("user_start_returned", "mark", result=obs["start"])
+
+        async def stop() -> None:
+            stopped[0] = True
+            gw.mark("user_stop_called")
+            try:
+                await iface.stop()
+                obs["stop"] = "returned"
+            except asyncio.CancelledError:
+                raise
+            except Exception as e:  # noqa: BLE001
+                obs["stop"] = "exc:" + exc_site(e)
+            gw.mark("user_stop_returned", "mark", result=obs["stop"])
+
+        k = case.get("stop_tick")
+        fired = [False]
+        tasks = []
+
+        def hook(tick: int) -> None:
+            if k is not None and not fired[0] and tick >= k:
+                fired[0] = True
+                tasks.append(loop.create_task(stop()))
+
+        loop.tick_hooks.append(hook)
+        start_task = loop.create_task(start())
+        await asyncio.wait([start_task])
+        if obs["start"] == "ok" and not stopped[0]:
+            await asyncio.sleep(0.2)
+            if not stopped[0]:
+                try:
+                    await iface.send_cemi(make_cemi(0))
+                except XKNXException:
+                    pass
+            await asyncio.sleep(HB + 5.0)
+        obs["session_ticks"] = loop.tick
+        gw.mark("session_end", "mark")
+        await asyncio.sleep(TAIL)
+        if k is not None and not fired[0]:
+            hook(10**9)
+            await asyncio.sleep(TAIL)
+        obs["final"] = {"state": cm.state.name, "connected_event": cm.connected.is_set(), "interface": type(iface._interface).__name__, "server_channel": gw.channel, "t": loop.time()}
+        xknx.started.clear()
+        return None
+
+    patches = _kdf_patches() if transport == "secure" else ()
+    for p in patches:
+        p.start()
+    try:
+        _, loop = run_case(scenario, net=None, max_iters=400_000)
+    finally:
+        for p in patches:
+            p.stop()
+    if gw.errors:
+        raise HarnessError("simulator error: " + gw.errors[0])
+    obs["log"] = gw.log
+    obs["escaped"] = loop.escaped
+    return obs
+
+
+_WIRE_MARKERS = ("transport_closed", "stream_open")
+
+
+def iface_judge(ctx, case, obs) -> None:
+    log, final = obs["log"], obs["final"]
+    for e in obs["escaped"]:
+        ctx.fail(f"C25:iface:escaped:{type(e['exception']).__name__}", case, e["repr"] + " " + e["message"])
+    for what in ("start", "stop"):
+        if (obs[what] or "").startswith("exc:"):
+            ctx.fail(f"C25:iface:{what}-raised-undeclared:{obs[what][4:]}", case, obs[what])
+    called = next((i for i, e in enumerate(log) if e["kind"] == "user_stop_called"), None)
+    states = [e["state"] for e in log if e["dir"] == "cb" and e["cb"] == 0]
+    for a, b in zip(states, states[1:]):
+        if a == b:
+            ctx.fail("C25:iface:callback-same-state-twice", case, f"reported states {states}")
+            break
+    if called is None:
+        if obs["start"] == "ok" and final["state"] != "CONNECTED":
+            ctx.fail("C25:iface:state-not-connected-after-start", case, f"final={final}")
+        if obs["start"] != "ok" and final["state"] == "CONNECTED":
+            ctx.fail("C25:iface:state-connected-after-failed-start", case, f"final={final}")
+        return
+    if obs["stop"] != "returned":
+        if obs["stop"] is None:
+            ctx.fail("C25:iface:stop-never-returned", case, f"stop() still pending {TAIL} s later")
+        return
+    returned = next(i for i, e in enumerate(log) if e["kind"] == "user_stop_returned")
+    # where was start() when stop() was called? (root-cause key: what stop() can reach differs per phase)
+    before = log[:called]
+    if any(e["dir"] == "s2c" and e["kind"] == "ConnectResponse" and e.get("handshake") for e in before):
+        phase = "established"
+    elif any(e["dir"] == "c2s" and e["kind"] not in _WIRE_MARKERS for e in before):
+        phase = "handshake-pending"
+    else:
+        phase = "transport-opening"
+    # once stop() has returned the user has disconnected: nothing is written any more, nothing is (re)established
+    late = [e for e in log[returned + 1 :] if e["dir"] == "c2s" and e["kind"] not in _WIRE_MARKERS]
+    if late:
+        ctx.fail(f"C25:iface:frame-after-stop-returned:{phase}:{late[0]['kind']}", case, f"stop() returned at t={log[returned]['t']}; written afterwards: {[(e['t'], e['kind']) for e in late[:6]]}")
+    conn_after = [e for e in log[returned + 1 :] if e["dir"] == "cb" and e["cb"] == 0 and e["state"] == "CONNECTED"]
+    if conn_after:
+        ctx.fail(f"C25:iface:connected-reported-after-stop-returned:{phase}", case, f"stop() returned at t={log[returned]['t']}, CONNECTED reported at t={conn_after[0]['t']}")
+    if final["state"] == "CONNECTED":
+        ctx.fail(f"C25:iface:state-connected-after-stop:{phase}", case, f"final={final}")
+    if final["connected_event"] != (final["state"] == "CONNECTED"):
+        ctx.fail("C25:iface:connected-event-inconsistent", case, f"final={final}")
+
+
+def iface_check(ctx, case):
+    try:
+        obs = iface_execute(case)
+    except (BudgetExceeded, Deadlock):
+        ctx.notes["inconclusive"] = ctx.notes.get("inconclusive", 0) + 1
+        return None
+    except HarnessError:
+        raise
+    except Exception as e:  # noqa: BLE001
+        ctx.fail(f"C25:iface:scenario-exc:{exc_site(e)}", case, repr(e))
+        return None
+    iface_judge(ctx, case, obs)
+    return obs
+
+
+def _iface_shard(ctx, transport: str, ar: bool, ci: int) -> None:
+    """stop() at every loop iteration of the start()/session run of one configuration (its length is learned first)."""
+    base = {"iface": True, "transport": transport, "auto_reconnect": ar, "connect": IFACE_CONNECT[ci]}
+    obs = iface_check(ctx, {**base, "stop_tick": None})
+    if obs is None:
+        raise HarnessError(f"interface session without stop() did not complete: {base}")
+    N = obs["session_ticks"]
+    n = 1
+    for k in range(2, N + 2):
+        iface_check(ctx, {**base, "stop_tick": k})
+        n += 1
+    ctx.bulk(n, n - 1, "iface:stop-at-every-iteration")
+    ctx.classes[f"iface:{transport}:connect-{IFACE_CONNECT[ci] if isinstance(IFACE_CONNECT[ci], str) else 'late'}"] += n
+    if ci == 1 and ar and transport == "udp":
+        ctx.sample({"iface": base, "stop_ticks": f"2..{N + 1}"})
+
+
 def selftest(ctx) -> None:
     ref.selftest()
 
 
 def _job(ctx, what: str, *args) -> None:
     """One fork pool for everything (forking is the expensive part on a busy box)."""
-    {"single": _single_shard, "adjacent": _adjacent_shard, "pairs": _pair_shard, "cm": _cm_shard, "cm-enum": _cm_enum_shard, "loop": _loop_shard, "triples": _triple_shard, "triples-hyp": _triple_hyp_shard}[what](ctx, *args)
+    {"single": _single_shard, "adjacent": _adjacent_shard, "pairs": _pair_shard, "cm": _cm_shard, "cm-enum": _cm_enum_shard, "loop": _loop_shard, "iface": _iface_shard, "triples": _triple_shard, "triples-hyp": _triple_hyp_shard}[what](ctx, *args)
 
 
 def run(ctx) -> None:
@@ -897,6 +1084,7 @@ def run(ctx) -> None:
         firsts = ["srv_disc_own", "send_fail"] if t == "udp" else ["srv_disc_own", "transport_loss"]
         jobs += [("triples", t, k1kind, lo, lo + 5, ctx.n(5, 8)) for k1kind in firsts for lo in range(2, N + 1, 6)]
     jobs += [("triples-hyp", ctx.n(40, 1500))] * 16
+    jobs += [("iface", t, ar, ci) for t, ar, ci in IFACE_CONFIGS]
     # ConnectionManager with a registered main loop under the tunnel session
     for t in ("udp", "tcp", "secure"):
         baseline(t, True, ctx, True)
@@ -911,7 +1099,9 @@ def run(ctx) -> None:
 
 
 def replay(ctx, case) -> None:
-    if case.get("cm"):
+    if case.get("iface"):
+        iface_check(ctx, case)
+    elif case.get("cm"):
         cm_check(ctx, case)
     else:
         check_case(ctx, case)
